@@ -962,7 +962,11 @@ wavlike_subchunk_parse (SF_PRIVATE *psf, int chunk, uint32_t chunk_length)
 	if (chunk_length <= 8)
 	{	/* This case is for broken files generated by PEAK. */
 		psf_log_printf (psf, "%M : %u (weird length)\n", chunk, chunk_length) ;
-		psf_binheader_readf (psf, "mj", &chunk, chunk_length - 4) ;
+		if (chunk_length < 4)
+		{	psf_binheader_readf (psf, "j", (size_t) chunk_length) ;
+			return 0 ;
+			} ;
+		psf_binheader_readf (psf, "mj", &chunk, (size_t) (chunk_length - 4)) ;
 		psf_log_printf (psf, "  %M\n", chunk) ;
 		return 0 ;
 		} ;
